@@ -32,6 +32,7 @@ from .errors import (
     TimeLimitError,
 )
 from .regex import RegexTimeoutError
+from . import _verif
 
 
 def js_round(x: float, ndigits: int = 0) -> float:
@@ -167,6 +168,8 @@ class VM:
     def _execute(self) -> JSValue:
         """Main execution loop."""
         while self.call_stack:
+            if _verif.ENABLED and _verif.on_vm_step:
+                _verif.on_vm_step(self)
             self._check_limits()
 
             frame = self.call_stack[-1]
@@ -2296,6 +2299,8 @@ class VM:
 
             # Execute until the call returns (back to original call stack depth)
             while len(self.call_stack) > call_stack_len:
+                if _verif.ENABLED and _verif.on_vm_step:
+                    _verif.on_vm_step(self)
                 self._check_limits()
                 frame = self.call_stack[-1]
                 func = frame.func
